@@ -122,6 +122,10 @@ impl NamespaceActor {
             //标记已同步旧版本数据
             self.already_sync_from_config = true;
         }
+        if param.namespace_id.as_str() == ALREADY_SYNC_FROM_CONFIG_KEY {
+            //the mark is not a namespace: it must not show up in the namespace list
+            return;
+        }
         let param_flag = if param.namespace_id.is_empty() {
             NamespaceFromFlags::SYSTEM.bits()
         } else {
